@@ -174,7 +174,7 @@ def run(ctx):
         ctx.case([scheds[i], fires], nontrivial=bool(fires))
     for j, rc, err in aborts:
         ctx.fail("probe_abort:rc%d" % rc, "memory error or crash in the timer", {"commands": scheds[j] if j is not None else None, "stderr": err})
-    if nfire < len(done):
+    if nfire * 10 < len(done):
         raise core.Infra("only %d callbacks ran in %d executions: the virtual clock seam is not working" % (nfire, len(done)))
     ctx.extra["callbacks_observed"] = nfire
     ctx.extra["settle_timeouts"] = unsettled
